@@ -751,6 +751,13 @@ def r7_default_range(R) -> None:
                 if isinstance(v_, ast.IfExp) and text(v_.test) in (f'{nm} is None',) and text(v_.orelse) == nm:
                     d_ = d
                     ds = ds + [type('N', (), {'ast': ast.Assign(targets=d.ast.targets, value=v_.body), 'id': d.id, 'lineno': d.lineno})()]
+            falsy = [d for d in f.assigns_to(nm) if isinstance(d.ast.value, ast.BoolOp) and isinstance(d.ast.value.op, ast.Or)
+                     and text(d.ast.value.values[0]) == nm]
+            falsy += [d for d in f.assigns_to(nm) if f.holds(d.id, nm, False) and not f.holds(d.id, f'{nm} is None')]
+            if not ds and falsy:
+                R.violation(q, f'default-on-falsy:{nm}', f'`{text(falsy[0].ast)[:60]}` applies the default to every falsy `{nm}` (the period label 0, an empty '
+                            f'string), not only to None: solve({nm}=0) silently solves from the default period', where=f.where(falsy[0]))
+                continue
             if not R.require(q, len(ds), f'default `{nm}` under `{nm} is None`', fi=f.fi, pred=lambda x: isinstance(x, ast.Subscript) and text(x.value) == 'self.span'):
                 continue
             v = ds[0].ast.value
